@@ -366,9 +366,11 @@ def run_c07(R, tier, rng):
     EXT = dict(VALS); EXT["float32"] = [1e16, 1.0, 0.1, -1e16, 0.5, 1.0]; EXT["float64"] = [1e16, 1.0, 0.1, -1e16, 0.5, 1.0]
     # skewed shapes (many short or empty rows next to a long one) with floats that an offset-and-subtract scheme would not survive
     for ls in ([2] + [0] * 8 + [2, 1], [16, 2, 1, 1, 1, 1], [1, 0, 0, 0, 0, 0, 3], [0] * 6 + [5], [12] + [1] * 9,
-               [1 + (i % 3) for i in range(400)] + [250], [300] + [i % 2 for i in range(700)], [2] * 90 + [2000]):      # the last three: a padded matrix of 10^5 and more cells for ~10^3 elements
+               [1 + (i % 3) for i in range(400)] + [250], [300] + [i % 2 for i in range(700)], [2] * 90 + [2000],       # these three: a padded matrix of 10^5 and more cells for ~10^3 elements
+               [4, 3], [4, 0, 3, 1]):
         for dt in ("float64", "float32"):
-            for vals in ([float("inf"), 1.0, 0.1, 2.0, 0.3], [1e17, 1.0, 0.1, -1e17, 0.5, 1.0], [0.1, 0.2, 0.3, 0.7]):
+            for vals in ([float("inf"), 1.0, 0.1, 2.0, 0.3], [1e17, 1.0, 0.1, -1e17, 0.5, 1.0], [0.1, 0.2, 0.3, 0.7],
+                         ([2.0 ** 52] * 4 + [1.0, 1.0, 1.0, 3.0] if dt == "float64" else [2.0 ** 23] * 4 + [1.0, 1.0, 1.0, 3.0])):      # whole numbers, each exactly representable, whose running total over earlier rows is not
                 X = fill(ls, vals, 0); rows = [np.array(r, dtype=dt) for r in X]
                 for ufn in ("add", "subtract"):
                     uf = getattr(np, ufn)
@@ -525,6 +527,13 @@ def run_c08(R, tier, rng):
                           lambda: rows_obs([np.array(r[:e], dtype=dt) for r, e in zip(X, en)], dt))
                     C.cmp(f"rslice starts-only {tagc} {st}", "ragged_slice/ragged", nt, lambda: ra_obs(ragged_slice(mk(), starts=np.array(st))),
                           lambda: rows_obs([np.array(r[s:], dtype=dt) for r, s in zip(X, st)], dt))
+                if rep == 0 and n <= 12:
+                    # ends far beyond the rows ("to the end", whatever the number) and far before them (nothing), as int64 vectors
+                    st = [rng.randint(0, l) for l in ls]
+                    for far in (2 ** 31 - 1, 2 ** 32, 2 ** 40 + 5, -(2 ** 32) - 1, -(2 ** 40)):
+                        en = [far] * n
+                        C.cmp(f"rslice far-end {tagc} {st} {far}", "ragged_slice/far-bounds", nt, lambda: ra_obs(ragged_slice(mk(), np.array(st, dtype=np.int64), np.array(en, dtype=np.int64))),
+                              lambda: rows_obs([np.array(r[s:e], dtype=dt) for r, s, e in zip(X, st, en)], dt), py=f"ragged_slice(RaggedArray({X}, dtype='{dt}'), np.array({st}), np.array({en}, dtype=np.int64))")
                 # the same call twice on ONE array object: the array (its rows, its geometry) and the index vectors are left as they were
                 st = [rng.randint(0, l) for l in ls]; en = [rng.randint(s, l) for s, l in zip(st, ls)]
                 selfobs = lambda: rows_obs([np.array(r, dtype=dt) for r in X], dt)
